@@ -209,5 +209,122 @@ def translateFunction (oracle : Nat → Option (Res BTR)) (manual : List ManualE
   | .err e => .err e
   | .panic => .panic
 
+-- ------------------------------------------------------------------------------------------------
+-- the reference: "one lifted instruction at a time", and the coherence hypothesis (semantic clause of C06)
+
+/-- all instruction graphs of all results, in iteration order -/
+def allInstrs (tb : List (Nat × BTR)) : List Function := tb.flatMap (fun p => p.2.instrs)
+
+/-- THE instruction graph at address `a` (the first one in iteration order; under coherence every copy is equal) -/
+def graphAt (tb : List (Nat × BTR)) (a : Nat) : Option Cfg :=
+  ((allInstrs tb).find? (fun g => g.addr == a)).map (·.cfg)
+
+/-- consecutive pairs of a list -/
+def pairs : List Nat → List (Nat × Nat)
+  | a :: b :: t => (a, b) :: pairs (b :: t)
+  | _ => []
+
+def firstAddr (r : BTR) : Option Nat := r.instrs.head?.map (·.addr)
+def lastAddr (r : BTR) : Option Nat := r.instrs.getLast?.map (·.addr)
+
+/-- inside a translation result an instruction is followed by the next one -/
+def reqLinks (tb : List (Nat × BTR)) : List (Nat × Nat × Option Expr) :=
+  tb.flatMap (fun p => (pairs (p.2.instrs.map (·.addr))).map (fun q => (q.1, q.2, none)))
+
+/-- a manual edge leaves the last instruction of the result at its head address and enters the first
+    instruction of the result at its tail address -/
+def reqManual (tb : List (Nat × BTR)) (manual : List ManualEdge) : List (Nat × Nat × Option Expr) :=
+  manual.filterMap (fun m =>
+    match tb.lookup m.head, tb.lookup m.tail with
+    | some h, some t =>
+      match lastAddr h, firstAddr t with
+      | some a, some b => some (a, b, m.cond)
+      | _, _ => none
+    | _, _ => none)
+
+/-- the successors of a result leave its last instruction -/
+def reqSuccs (tb : List (Nat × BTR)) : List (Nat × Nat × Option Expr) :=
+  tb.flatMap (fun p => p.2.succs.filterMap (fun s =>
+    match tb.lookup s.1 with
+    | some t =>
+      match lastAddr p.2, firstAddr t with
+      | some a, some b => some (a, b, s.2)
+      | _, _ => none
+    | none => none))
+
+/-- what the translation results and the manual edges say about control flow between instructions:
+    (a, b, guard) = "after the instruction at `a`, when `guard` holds, comes the instruction at `b`" -/
+def reqList (tb : List (Nat × BTR)) (manual : List ManualEdge) : List (Nat × Nat × Option Expr) :=
+  reqLinks tb ++ reqManual tb manual ++ reqSuccs tb
+
+/-- configuration of the reference: inside the instruction graph at `addr`, at `block`/`pos`, in `state` -/
+structure RConfig where
+  addr : Nat
+  block : Nat
+  pos : Nat
+  state : State
+
+/-- one step of the reference machine: IL steps inside the instruction graph at the current address (the IL
+    operational semantics `FStep` of Exec.lean on that graph alone), and, at the end of its exit block, the
+    transfer to the entry of the instruction graph at a successor address whose guard holds -/
+inductive RStep (tb : List (Nat × BTR)) (manual : List ManualEdge) : RConfig → RConfig → Prop where
+  | instr {x : RConfig} {g : Cfg} {b : Block} {i : Instr} {σ' : State} :
+      graphAt tb x.addr = some g → g.block x.block = some b → b.instrs[x.pos]? = some i →
+      execute x.state i.op = .ok (σ', .fallThrough) →
+      RStep tb manual x ⟨x.addr, x.block, x.pos + 1, σ'⟩
+  | edge {x : RConfig} {g : Cfg} {b : Block} {e : Edge} :
+      graphAt tb x.addr = some g → g.block x.block = some b → x.pos = b.instrs.length →
+      e ∈ g.edgesOut x.block → guardHolds x.state e.cond →
+      RStep tb manual x ⟨x.addr, e.tail, 0, x.state⟩
+  | next {x : RConfig} {g g' : Cfg} {b : Block} {a' en : Nat} {c : Option Expr} :
+      graphAt tb x.addr = some g → g.exit = some x.block → g.block x.block = some b →
+      x.pos = b.instrs.length → (x.addr, a', c) ∈ reqList tb manual → guardHolds x.state c →
+      graphAt tb a' = some g' → g'.entry = some en →
+      RStep tb manual x ⟨a', en, 0, x.state⟩
+
+inductive RRun (tb : List (Nat × BTR)) (manual : List ManualEdge) : RConfig → RConfig → Prop where
+  | refl (x : RConfig) : RRun tb manual x x
+  | step {x y z : RConfig} : RRun tb manual x y → RStep tb manual y z → RRun tb manual x z
+
+/-- a configuration that is inside its instruction graph -/
+def RValid (tb : List (Nat × BTR)) (x : RConfig) : Prop :=
+  ∃ g b, graphAt tb x.addr = some g ∧ g.block x.block = some b ∧ x.pos ≤ b.instrs.length
+
+/-- **coherence of the translation results** (the hypothesis of `asm_refines`; every clause is decidable and the
+    driver evaluates `coherenceProblems` on the dumped results of every generated case):
+    * `keys`     results are keyed by distinct addresses (it is a `BTreeMap`);
+    * `first`    the result at address `k` starts with the instruction at `k` (in particular it is not empty);
+    * `same`     an address has the same instruction graph in every result that contains it (wherever the window
+                 started, whichever block it was lifted in);
+    * `exitOut`  the exit block of an instruction graph has no out-edge inside the graph (leaving the exit block
+                 means leaving the instruction);
+    * `reqFun`   two control transfers between the same two instructions carry the same guard (the assembly keeps
+                 only the first edge between two blocks). -/
+structure Coherent (tb : List (Nat × BTR)) (manual : List ManualEdge) : Prop where
+  keys : (tb.map (·.1)).Nodup
+  first : ∀ p ∈ tb, firstAddr p.2 = some p.1
+  same : ∀ g₁ ∈ allInstrs tb, ∀ g₂ ∈ allInstrs tb, g₁.addr = g₂.addr → g₁.cfg = g₂.cfg
+  exitOut : ∀ g ∈ allInstrs tb, ∀ x, g.cfg.exit = some x → g.cfg.edgesOut x = []
+  reqFun : ∀ q₁ ∈ reqList tb manual, ∀ q₂ ∈ reqList tb manual, q₁.1 = q₂.1 → q₁.2.1 = q₂.2.1 → q₁.2.2 = q₂.2.2
+
+instance (tb : List (Nat × BTR)) (manual : List ManualEdge) : Decidable (Coherent tb manual) :=
+  if h : (tb.map (·.1)).Nodup ∧ (∀ p ∈ tb, firstAddr p.2 = some p.1) ∧
+      (∀ g₁ ∈ allInstrs tb, ∀ g₂ ∈ allInstrs tb, g₁.addr = g₂.addr → g₁.cfg = g₂.cfg) ∧
+      (∀ g ∈ allInstrs tb, ∀ x, g.cfg.exit = some x → g.cfg.edgesOut x = []) ∧
+      (∀ q₁ ∈ reqList tb manual, ∀ q₂ ∈ reqList tb manual, q₁.1 = q₂.1 → q₁.2.1 = q₂.2.1 → q₁.2.2 = q₂.2.2)
+  then isTrue ⟨h.1, h.2.1, h.2.2.1, h.2.2.2.1, h.2.2.2.2⟩
+  else isFalse (fun c => h ⟨c.keys, c.first, c.same, c.exitOut, c.reqFun⟩)
+
+/-- the clauses of `Coherent` that fail, by name (driver) -/
+def coherenceProblems (tb : List (Nat × BTR)) (manual : List ManualEdge) : List String :=
+  (if (tb.map (·.1)).Nodup then [] else ["keys"]) ++
+  (match tb.find? (fun p => firstAddr p.2 != some p.1) with | some p => [s!"first@{p.1}"] | none => []) ++
+  (match (allInstrs tb).find? (fun g₁ => (allInstrs tb).any (fun g₂ => g₁.addr == g₂.addr && g₁.cfg != g₂.cfg)) with
+    | some g => [s!"same@{g.addr}"] | none => []) ++
+  (match (allInstrs tb).find? (fun g => match g.cfg.exit with | some x => !(g.cfg.edgesOut x).isEmpty | none => false) with
+    | some g => [s!"exitOut@{g.addr}"] | none => []) ++
+  (match (reqList tb manual).find? (fun q₁ => (reqList tb manual).any (fun q₂ => q₁.1 == q₂.1 && q₁.2.1 == q₂.2.1 && q₁.2.2 != q₂.2.2)) with
+    | some q => [s!"reqFun@{q.1}->{q.2.1}"] | none => [])
+
 end Assemble
 end Falcon
